@@ -50,6 +50,15 @@ def cases(rng, tier):
         yield Case(c, ("degenerate",), "degenerate")
     for c in c02.cases(rng, tier):
         yield Case("convwf" + c.req[4:], c.tags, c.family)
+    # loop-break distance sweep across the short/long form boundary: the tail after the break
+    # compiles to 2n+s bytes (n two-byte commands, s one-byte slurs), offset = 2n+s+2
+    Tt = songgen.event_types()
+    for n_cmd in range(121, 133):
+        for s1 in (0, 1):
+            tail = [(Tt["VOL"], (i % 15) + 1, 0, 0) for i in range(n_cmd)] + [(Tt["SLUR"], 0, 0, 0)] * s1
+            evs = [(Tt["LOOP_START"], 0, 0, 0), (Tt["NOTE"], 40, 6, 0), (Tt["LOOP_BREAK"], 0, 0, 0)] + tail + \
+                  [(Tt["NOTE"], 41, 6, 0), (Tt["LOOP_END"], 2, 0, 0), (Tt["NOTE"], 42, 6, 0)]
+            yield Case("convwf " + songgen.render({0: evs}), ("break-distance-%d" % (2 * n_cmd + s1 + 4),), "break-distance")
     # loop points at every position, including inside loops and subroutines
     T = songgen.event_types()
     n = 150 if tier == "quick" else 2500
